@@ -78,6 +78,14 @@ namespace gr = galois::runtime;
 namespace gs = galois::substrate;
 using sx::fail;
 
+#if C09_ASAN
+// 16 workers x the default 256 MiB quarantine of freed multi-MiB malloc
+// fall-back blocks is memory the exploration does not need
+extern "C" const char* __asan_default_options() {
+  return "quarantine_size_mb=32";
+}
+#endif
+
 static const size_t PAGE = 2u << 20; // == allocSize(), verified in rt()
 
 // ---------------------------------------------------------------------------
@@ -94,6 +102,7 @@ static const int CAP = 1 << 17;
 static Rec tab[CAP];
 static int n;
 static int lk;
+static bool overflow;
 static void lock() {
   while (__atomic_exchange_n(&lk, 1, __ATOMIC_ACQUIRE)) {
   }
@@ -118,7 +127,8 @@ static void add(uintptr_t b, size_t len) {
     memmove(&tab[i + 1], &tab[i], (n - i) * sizeof(Rec));
     tab[i] = Rec{b, len};
     ++n;
-  }
+  } else
+    overflow = true;
   unlock();
 }
 static void del(uintptr_t b, size_t len) {
@@ -403,6 +413,8 @@ public:
            (size_t)(a % align));
     mm::Rec m;
     bool inmap = mm::find(a, m);
+    if (mm::overflow)
+      fail("harness:mapping-table-overflow", "more than %d mappings", mm::CAP);
     if (bk == B_PAGE || bk == B_MAPPING || inmap) {
       if (!inmap)
         fail(comp + ":outside-allocator-memory",
@@ -526,6 +538,11 @@ public:
   }
 };
 
+template <class Ops> // tolerate an index that belongs to another case
+static std::string opname_of(const Ops& ops, int i) {
+  return i >= 0 && (size_t)i < ops.size() ? ops[i].nm : std::string("<op?>");
+}
+
 static std::string szname(size_t s) {
   char b[64];
   if (s >= PAGE - 64 && s <= PAGE + 64) {
@@ -577,7 +594,7 @@ static sx::BfsCase sized_case(const std::string& name, const std::string& comp,
   sx::BfsCase c;
   c.name           = name;
   c.nops           = (int)ops->size();
-  c.opname         = [ops](int i) { return (*ops)[i].nm; };
+  c.opname         = [ops](int i) { return opname_of(*ops, i); };
   c.quick_depth    = qd;
   c.thorough_depth = td;
   c.weight         = weight;
@@ -747,7 +764,7 @@ static sx::BfsCase bump_case(const std::string& name, const std::string& comp,
   sx::BfsCase c;
   c.name           = name;
   c.nops           = (int)ops->size();
-  c.opname         = [ops](int i) { return (*ops)[i].nm; };
+  c.opname         = [ops](int i) { return opname_of(*ops, i); };
   c.quick_depth    = qd;
   c.thorough_depth = td;
   c.weight         = weight;
@@ -899,7 +916,7 @@ static sx::BfsCase pagepool_case(int T, int qd, int td) {
   sx::BfsCase c;
   c.name           = "page pool + PageHeap, " + std::to_string(T) + " threads";
   c.nops           = (int)ops->size();
-  c.opname         = [ops](int i) { return (*ops)[i].nm; };
+  c.opname         = [ops](int i) { return opname_of(*ops, i); };
   c.quick_depth    = qd;
   c.thorough_depth = td;
   c.run            = [=](const std::vector<int>& h) -> std::string {
@@ -920,6 +937,7 @@ static sx::BfsCase pagepool_case(int T, int qd, int td) {
       Shadow& sh;
       gr::PageHeap* ph;
       int T;
+      std::vector<int>& pre;
       ~Guard() {
         for (auto& kv : sh.live) {
           Imp im(kv.second.thr);
@@ -932,8 +950,17 @@ static sx::BfsCase pagepool_case(int T, int qd, int td) {
         // so the next history starts with empty PageHeap free lists
         for (int t = 0; t < T; ++t)
           ph->innerHeap.heaps.getRemote(t)->clear();
+        // pagePoolPreAlloc grows the pool for good.  To keep the worker's
+        // memory bounded over 10^5 histories the harness takes as many pages
+        // out of the pool again (it owns them then) and unmaps them instead
+        // of ever giving them back.
+        for (int t = 0; t < T; ++t)
+          for (int i = 0; i < pre[t]; ++i) {
+            Imp im(t);
+            munmap(gr::pagePoolAlloc(), PAGE);
+          }
       }
-    } guard{sh, ph, T};
+    } guard{sh, ph, T, prealloc};
     for (int o : h) {
       const Op& op = (*ops)[o];
       if (op.kind == 0 || op.kind == 1) {
@@ -1014,7 +1041,7 @@ static sx::BfsCase perbackend_case(int qd, int td) {
   sx::BfsCase c;
   c.name           = "PerBackend::allocOffset/deallocOffset (private instance)";
   c.nops           = (int)ops->size();
-  c.opname         = [ops](int i) { return (*ops)[i].nm; };
+  c.opname         = [ops](int i) { return opname_of(*ops, i); };
   c.quick_depth    = qd;
   c.thorough_depth = td;
   c.run            = [=](const std::vector<int>& h) -> std::string {
@@ -1153,7 +1180,7 @@ static sx::BfsCase pts_objects_case(int qd, int td) {
   sx::BfsCase c;
   c.name   = "PerThreadStorage/PerSocketStorage objects (global backends)";
   c.nops   = (int)ops->size();
-  c.opname = [ops](int i) { return (*ops)[i].nm; };
+  c.opname = [ops](int i) { return opname_of(*ops, i); };
   c.quick_depth    = qd;
   c.thorough_depth = td;
   c.run            = [=](const std::vector<int>& h) -> std::string {
@@ -1294,7 +1321,7 @@ static sx::BfsCase largearray_case(size_t nA, size_t nB, int qd, int td) {
   c.name = "LargeArray<24B> A[" + std::to_string(nA) + "] B[" +
            std::to_string(nB) + "]";
   c.nops           = (int)ops->size();
-  c.opname         = [ops](int i) { return (*ops)[i].nm; };
+  c.opname         = [ops](int i) { return opname_of(*ops, i); };
   c.quick_depth    = qd;
   c.thorough_depth = td;
   c.run            = [=](const std::vector<int>& h) -> std::string {
@@ -1552,9 +1579,9 @@ int main(int argc, char** argv) {
       "BumpWithMallocHeap",
       {1, 8, 9, 4096, M, PAGE - 16, PAGE - 8, PAGE - 7, 3 * M}, {}, 1,
       B_HEAP_OR_PAGE,
-      [] { return std::unique_ptr<BumpApi>(new IterAllocApi()); }, 4, 6, 2));
+      [] { return std::unique_ptr<BumpApi>(new IterAllocApi()); }, 4, 5, 2));
   // --- page pool
-  bfs.push_back(pagepool_case(2, 4, 7));
+  bfs.push_back(pagepool_case(2, 4, 6));
   // --- per-thread storage
   bfs.push_back(perbackend_case(5, 9));
   bfs.push_back(pts_objects_case(4, 7));
